@@ -104,7 +104,8 @@ def check(facts, rep, tier, cfg):
         if "task::" not in b.path:
             continue
         rep.analysed(b)
-        it = Inter(facts, root=b.dp)
+        _d = rules_c10.dispatcher(crate)
+        it = Inter(facts, root=_d.dp if _d else b.dp)   # expand helper parameters up to (not beyond) the frame dispatcher
         where = "%s (%s)" % (loc_str(s["loc"]), b.path)
         got = {f: sorted(rules_c03.top_roles(it.expand(b, it.tracer(b).operand(op)))) for f, op in fields.items()}
         want = {"flow_id": ["Frame.id"], "target_host": ["DatagramPayload.target_host"], "target_port": ["DatagramPayload.target_port"],
